@@ -21,6 +21,9 @@ structure Binding (P : Proto) where
   /-- fields holding plain (non-atomic) data: operations on them leave no event in the trace and are
       executed together with the preceding visible operation of the same thread -/
   silentFld : Fld → Bool := fun _ => false
+  /-- fields whose values are addresses (or otherwise not modelled): the operation kind and field
+      must match, the values are not compared -/
+  opaqueFld : Fld → Bool := fun _ => false
 
 /-- signed normalisation modulo 2^bits -/
 def norm (bits : Nat) (x : Int) : Int :=
@@ -36,19 +39,25 @@ def isSilentOp {P : Proto} (B : Binding P) : AOp → Bool
   | .load f => B.silentFld f
   | .store f _ => B.silentFld f
   | .xchg f _ => B.silentFld f
+  | .cas f _ _ => B.silentFld f
   | _ => false
 
-/-- run the silent (thread-local / plain-data) steps that follow a visible operation -/
-def runSilent {P : Proto} (B : Binding P) (s : State P) (t : TId) : Nat → State P
+/-- run the silent (thread-local / plain-data) steps of thread `t`.
+    A silent `cas` models acquiring a mutex: the real thread passes a scheduling point before it
+    acquires, so acquisition is only attempted in the run that precedes the thread's next visible
+    event (`lock = true`); releases and plain accesses run right after the preceding visible event. -/
+def runSilent {P : Proto} (B : Binding P) (s : State P) (t : TId) (fuelIn : Nat) (lock : Bool := false) : State P :=
+  match fuelIn with
   | 0 => s
   | fuel + 1 =>
     if s.parked t ≠ none then s else
     match P.op (s.loc t) with
     | some o =>
       if isSilentOp B o then
-        match exec s (.step t) with
-        | some s' => runSilent B s' t fuel
-        | none => s
+        match o, exec s (.step t) with
+        | .cas f e _, some s' => if lock && s.mem f = e then runSilent B s' t fuel lock else s
+        | _, some s' => runSilent B s' t fuel lock
+        | _, none => s
       else s
     | none => s
 
@@ -104,8 +113,10 @@ def acceptLine {P : Proto} (B : Binding P) (s : State P) (toks : List String) :
             match B.fieldOf fieldS with
             | none => .error s!"unknown field {fieldS}"
             | some f =>
+              -- silent steps that could not run earlier (e.g. a mutex that was busy) run now
+              let s := runSilent B s t 64 true
               let nb := B.bits f
-              let same (a b : Int) : Bool := norm nb a = norm nb b
+              let same (a b : Int) : Bool := B.opaqueFld f || norm nb a = norm nb b
               if kind = "futex_wait_ret" then
                 if result = 110 then
                   match exec s (.timeout t) with
